@@ -93,9 +93,19 @@ class StringContainsToConcat:
         return node.has_ident() and node.get_ident() == 'str.contains'
 
     def global_mutations(self, node, input_):
+        if len(node) != 3:
+            return []
         var = node[1]
-        k1 = f'{var}_prefix'
-        k2 = f'{var}_suffix'
+        if var.is_leaf() and not is_piped_symbol(var):
+            k1 = f'{var}_prefix'
+            k2 = f'{var}_suffix'
+        else:
+            # the first argument is a term (or a quoted symbol), its text
+            # can not be part of a symbol
+            k1 = f'x{node.id}_prefix'
+            k2 = f'x{node.id}_suffix'
+        if is_var(Node(k1)) or is_var(Node(k2)):
+            return []
         vars = [
             Node('declare-const', k1, 'String'),
             Node('declare-const', k2, 'String'),
